@@ -152,6 +152,10 @@ func (d *dv) jsonText(b *bytes.Buffer) {
 	case 'i':
 		b.WriteString(strconv.FormatInt(d.i, 10))
 	case 'f':
+		if d.f == 0 && math.Signbit(d.f) {
+			b.WriteString("-0.0") // stays a float (negative zero) for the reader
+			break
+		}
 		jb, _ := json.Marshal(d.f)
 		b.Write(jb)
 	case 's', 't':
@@ -377,6 +381,7 @@ type docgen struct {
 	marker      int      // unique marker counter for unknown keys/values
 	markers     []string // every marker placed (each must appear exactly once in the output)
 	malformed   bool     // inject type errors
+	negZero     bool     // free-form floats may be -0.0
 	injected    int
 	strPool     []string
 	depth       int
@@ -461,6 +466,11 @@ func (g *docgen) anyValue(depth int) *dv {
 	case 5:
 		return dNull()
 	case 6:
+		if g.negZero && g.rng.Chance(60) {
+			// negative zero: a float here, the integer 0 once it has been through JSON text (used where the oracle
+			// is a verdict, not a comparison of number spellings)
+			return dFloat(math.Copysign(0, -1))
+		}
 		return dFloat(sx.Pick(g.rng, []float64{2.5, 1e100, -3.0, 0.1}))
 	case 7:
 		if g.rng.Chance(30) {
@@ -661,7 +671,7 @@ func (g *docgen) matrix() *dv {
 				a.set("skip", dStr("reason "+g.mark()))
 			case 3:
 				// anything but false and null means skip - also values that look empty
-				a.set("skip", sx.Pick(g.rng, []*dv{dStr(""), dInt(0), dFloat(0), dList(), dMap(), dInt(1), dList(dStr("r")), dMap(dkv{"why", dStr("r")}), dNull()}))
+				a.set("skip", sx.Pick(g.rng, []*dv{dStr(""), dInt(0), dFloat(0), dList(), dMap(), dInt(1), dList(dStr("r " + g.mark())), dMap(dkv{"why" + g.mark(), dStr(g.mark())}), dList(dMap(dkv{"n", g.str()})), dNull()}))
 			}
 			if g.rng.Chance(40) {
 				a.set("soft_fail", g.anyValue(1))
